@@ -28,7 +28,7 @@ pub fn scratch_dir(name: &str) -> PathBuf {
 
 pub fn external_factory(opts: Vec<String>) -> Box<SatSolverFactoryFn> {
     // at most 300 SAT calls (= processes) per solver object: a diverging search becomes a panic
-    Box::new(move || Box::new(crate::staticq::Limited { inner: ExternalSatSolver::new(fake_sat().to_string(), opts.clone()), calls: 0, limit: 300 }))
+    Box::new(move || Box::new(crate::staticq::Limited { inner: ExternalSatSolver::new(fake_sat().to_string(), opts.clone()), calls: 0, limit: 300, literals: 0 }))
 }
 
 #[derive(Default)]
@@ -206,6 +206,52 @@ fn dynamic_external(depth: usize) -> ExtAcc {
         .reduce(ExtAcc::default, ExtAcc::merge)
 }
 
+/// the scripted long sessions of C15 (instances up to megabytes, 20+ calls per object) through the
+/// real ExternalSatSolver with the stand-in program logging what it receives
+pub fn long_sessions_external(thorough: bool) -> ExtAcc {
+    long_sessions_external_named(thorough, None)
+}
+
+pub fn long_sessions_external_named(thorough: bool, only: Option<&str>) -> ExtAcc {
+    let dir = scratch_dir("c16long");
+    let sessions: Vec<(String, Vec<crate::checks::c15::SatOp>)> = crate::checks::c15::long_sessions(thorough).into_iter().filter(|(n, _)| only.map(|o| o == n).unwrap_or(true)).collect();
+    let idx: Vec<usize> = (0..sessions.len()).collect();
+    idx.par_iter()
+        .with_max_len(1)
+        .map(|&i| {
+            let mut acc = ExtAcc::default();
+            let (name, h) = &sessions[i];
+            let log = dir.join(format!("{}.log", i));
+            let _ = std::fs::remove_file(&log);
+            acc.queries += 1;
+            let solver: Box<dyn crustabri::sat::SatSolver> = Box::new(ExternalSatSolver::new(fake_sat().to_string(), vec![format!("log={}", log.display()), "vwidth=5".into()]));
+            let res = crate::checks::c15::run_history_on(solver, h);
+            let case = |_upto: usize| json!({"engine": "long_session_external", "session": name, "thorough": thorough});
+            for r in drain_log(&log) {
+                acc.instances += 1;
+                let probs = r["problems"].as_array().cloned().unwrap_or_default();
+                if !probs.is_empty() {
+                    acc.add(Violation {
+                        property: "C16".into(),
+                        key: "part=instance;scope=long_session;what=malformed_instance".into(),
+                        message: format!("session {}: SAT call {} wrote an ill-formed DIMACS instance of {} bytes: {:?} (header {} vars / {} clauses, real max var {}, {} clauses)", name, r["call"], r["bytes"], probs, r["header_vars"], r["header_clauses"], r["max_var"], r["n_clauses"]),
+                        case: case(h.len()),
+                    });
+                }
+            }
+            if let Err((step, what, msg)) = res {
+                acc.add(Violation {
+                    property: "C16".into(),
+                    key: format!("part=long_session;what={}", what),
+                    message: format!("session {} at operation {}: {}", name, step + 1, msg.chars().take(500).collect::<String>()),
+                    case: case(step + 1),
+                });
+            }
+            acc
+        })
+        .reduce(ExtAcc::default, ExtAcc::merge)
+}
+
 // ---------------------------------------------------------------------------------------------
 // (2) replies of any shape
 
@@ -367,6 +413,16 @@ pub fn run(tier: Tier) -> i32 {
             rep.n_violations += n - 1;
             rep.add_violation(v);
         }
+    }
+    let lacc = long_sessions_external(thorough);
+    rep.states += lacc.instances;
+    rep.transitions += lacc.instances;
+    rep.traces += lacc.instances;
+    rep.evaluations += lacc.instances;
+    rep.extra.insert("part1:instances written during the scripted long sessions of C15 (up to megabytes of clause text, 20+ calls per object)".into(), json!({"sessions": lacc.queries, "dimacs_instances_parsed_strictly": lacc.instances}));
+    for (_, (n, v)) in lacc.violations {
+        rep.n_violations += n - 1;
+        rep.add_violation(v);
     }
     let dacc = dynamic_external(if thorough { 6 } else { 5 });
     rep.states += dacc.instances;
